@@ -79,3 +79,14 @@ Proof. exact mfi_refines. Qed.
 Theorem C03_mfi_spec : forall p b0 bs,
   mfi_spec p b0 bs = (let w := lastn p (flows (tpr b0) bs) in mul XROps (div XROps (Fin (possum w)) (Fin (possum w + negsum w))) (Fin 100)).
 Proof. reflexivity. Qed.
+
+From Coq Require Import List Floats.
+From TA Require Import Generic FloatInst XQ Run2 Par.Hom Par.Var Par.Oracle.
+(* the T2 oracle (exact rational run, evaluated by the checks) is the image of the exact real run these
+   theorems are about; SD/BB through the variance model (sqrt := identity, Par/Var.v) *)
+Theorem C03_t2_oracle_variance : forall fops : list (@op float),
+  snd (run XRvOps [] (map (map_op f2xr) fops)) = map (map_obs q2x) (snd (run XQOps [] (map qop fops))).
+Proof. exact t2_oracle_variance. Qed.
+Theorem C03_t2_oracle : forall fops : list (@op float), forallb no_sqrt_kind fops = true ->
+  snd (run XROps [] (map (map_op f2xr) fops)) = map (map_obs q2x) (snd (run XQOps [] (map qop fops))).
+Proof. exact t2_oracle. Qed.
